@@ -14,16 +14,16 @@ REQUIRED = {'all': ['oracle.abandon_points_checked', 'oracle.sockets_checked', '
 RULE = ('scenarios that between them yield every event kind (Connecting, Connected - also via proxy and TLS -, '
         'Ready, Poll produced while draining a read and idle Poll produced by a selector timeout, Text, Binary, '
         'Ping, Pong, Closing, Closed, ProtocolError critical and non-critical, Rejected, Unresponsive, '
-        'Disconnected, ConnectFail); for each scenario EVERY event index x four abandonment mechanisms (break + '
+        'Disconnected, ConnectFail); for each scenario EVERY event index x six abandonment mechanisms (break + '
         'iterator dropped, exception raised in the handler and caught outside, generator.close(), exception '
-        'leaving a with-block). Oracle after gc.collect(): every simulated socket that was created has had '
+        'leaving a with-block - short and > 123-byte message -, break followed by a new connect() bound to the same variable). Oracle after gc.collect(): every simulated socket that was created has had '
         'close() called, every selector constructed was closed. Real loopback sockets for a subset: fileno() '
         '== -1 and /proc/self/fd back to baseline. A class is (scenario, event kind abandoned at, how that '
         'event was produced, mechanism).')
 ASSUMPTIONS = ['CPython reference counting finalises an unreferenced generator immediately (gc.collect() is also called)']
 
 F = refws.enc_frame
-MECHS = ('break', 'raise', 'genclose', 'with')
+MECHS = ('break', 'raise', 'genclose', 'with', 'with-long-message', 'rebind')
 
 
 class Boom(Exception):
@@ -110,12 +110,12 @@ def cases(tier, seed, i, n):
                 for mech in MECHS:
                     yield dict(kind='sim', sc=name, k=k, mech=mech)
         yield gen.mark('every event index of every scenario x 4 abandonment mechanisms (simulated transport)')
-        for r, mech in enumerate(MECHS):
+        for r, mech in enumerate(MECHS[:4]):
             if tier == 'thorough' or r % 2 == 0:
                 yield dict(kind='busy-writer', mech=mech)
         reals = [('rst', 3), ('fin', 3), ('text', 1), ('text', 2), ('text', 3), ('text', 4), ('idle', 4), ('idle', 5)]
         for r, (mode, k) in enumerate(reals):
-            for mech in MECHS if tier == 'thorough' else (MECHS[r % 4], MECHS[(r + 1) % 4]):
+            for mech in MECHS[:4] if tier == 'thorough' else (MECHS[r % 4], MECHS[(r + 1) % 4]):
                 yield dict(kind='real', mode=mode, k=k, mech=mech)
     return gen.shard(allcases(), i, n)
 
@@ -160,17 +160,34 @@ def abandon(genf, ws, k, mech, policy=None, world=None):
                 break
         g.close()
         del g
-    elif mech == 'with':
+    elif mech in ('with', 'with-long-message'):
+        msg = '' if mech == 'with' else ('the handler failed: ' + 'détail ' * 40)
         def consume():
+            events = genf()          # the consumer keeps its own reference to the generator
             with ws:
-                for ev in genf():
+                for ev in events:
                     handler(ev)
                     if len(seen) - 1 == k:
-                        raise Boom()
+                        raise Boom(msg)
         try:
             consume()
         except Boom:
             pass
+        except Exception as e:   # noqa  (anything else leaving the with-block is noted by the caller)
+            seen.append('<with-block raised %s>' % type(e).__name__)
+    elif mech == 'rebind':
+        # gen = ws.connect(...); break; gen = ws.connect(...)  - the old generator is only released AFTER the
+        # new connect() call has run (the variable is rebound afterwards)
+        gen_ = genf()
+        for ev in gen_:
+            handler(ev)
+            if len(seen) - 1 == k:
+                break
+        if world is not None:
+            gen_ = ws.connect(session_class=simnet.SimSession)     # not iterated; replaces the old generator
+        else:
+            gen_ = ws.connect()
+        del gen_
     gc.collect()
     return seen
 
@@ -201,14 +218,17 @@ def run_case(case, acc):
         gc.collect()
     acc.count2('oracle', 'abandon_points_checked')
     key = None
-    detail = dict(seen=seen, expected_trace=names[:k + 1], sockets=[(s.sid, s.closed, s.conn is not None) for s in w.socks],
+    detail = dict(seen=list(seen), expected_trace=names[:k + 1], sockets=[(s.sid, s.closed, s.conn is not None) for s in w.socks],
                   selectors=[s.closed for s in w.selectors])
-    if seen != names[:k + 1]:
+    if seen and seen[-1].startswith('<with-block raised'):
+        key = 'with-block-replaced-the-handlers-exception:' + seen[-1][18:-1]
+        seen = seen[:-1]
+    if seen != names[:k + 1] and key is None:
         key = 'HARNESS-trace-mismatch'
     for s in w.socks:
         acc.count2('oracle', 'sockets_checked')
         if not s.closed:
-            key = 'socket-left-open-after-abandon:at-%s' % how[k]
+            key = 'socket-left-open-after-abandon:at-%s' % how[k] + (':' + mech if mech in ('rebind', 'with-long-message') else '')
     for sel in w.selectors:
         acc.count2('oracle', 'selectors_checked')
         if not sel.closed and key is None:
